@@ -444,4 +444,50 @@ theorem jumpLoop_eq_act (T : σ → σ) {w : Nat} (words : List (BitVec w)) (s :
 
 end jump
 
+/-! ## statements of the kernel-checked certificates (soundness is in `OrbitCert`) -/
+
+/-- `act T P` (run with `k` bits of fuel) vanishes on `emb (2^i)` for `lo ≤ i < lo + cnt`. -/
+def basisCheck {σ : Type} [XorSpace σ] [DecidableEq σ] (T : σ → σ) (P k : Nat) {w : Nat}
+    (emb : BitVec w → σ) (lo cnt : Nat) : Bool :=
+  (List.range' lo cnt).all fun i => decide (actRun T k P zero (emb (BitVec.twoPow w i)) = zero)
+
+/-- Certificate that `x^(N/p) - 1` is a unit modulo `P`: the value `r = x^(N/p) mod P` and an
+    inverse `inv` of `r + 1`. -/
+def CofCert (P n N p : Nat) : Prop :=
+  ∃ r inv, powx P n n (N / p) 1 = r ∧ inv < 2 ^ n ∧ mulmod P n n (r ^^^ 1) inv 0 = 1
+
+/-! ## splitting one exponentiation into independently checked segments
+
+Each segment is a separate theorem (a separate kernel run, so the kernel's caches are released in
+between); `PowxChain.powx_eq` glues them. -/
+
+theorem powx_split (P n L : Nat) : ∀ (k e r : Nat),
+    powx P n (L + k) e r = powx P n L e (powx P n k (e >>> L) r) := by
+  intro k
+  induction k with
+  | zero => intro e r; rfl
+  | succ k ih =>
+    intro e r
+    rw [← Nat.add_assoc, powx_succ, powx_succ, ih, Nat.shiftRight_add]
+
+/-- `cps` are the values after each block of `L` exponent bits (from the top), starting at `r`. -/
+def PowxChain (P n L e : Nat) : Nat → List Nat → Prop
+  | _, [] => True
+  | r, c :: cs => powx P n L (e >>> (L * cs.length)) r = c ∧ PowxChain P n L e c cs
+
+/-- the last checkpoint (or the start value) -/
+def chainLast : Nat → List Nat → Nat
+  | r, [] => r
+  | _, c :: cs => chainLast c cs
+
+theorem PowxChain.powx_eq {P n L e : Nat} : ∀ (cps : List Nat) (r : Nat),
+    PowxChain P n L e r cps → powx P n (L * cps.length) e r = chainLast r cps := by
+  intro cps
+  induction cps with
+  | nil => intro r _; rfl
+  | cons c cs ih =>
+    intro r h
+    rw [List.length_cons, Nat.mul_succ, powx_split, h.1, ih c h.2]
+    rfl
+
 end Rngs
